@@ -118,6 +118,23 @@ def run(tier, seed):
                       'Goal True. idtac "@@BAD %s". Abort.' % name,
                       'Eval vm_compute in bad_mappings F_%s.tmpl F_%s.aliases F_%s.maps.' % (ident, ident, ident)]
             thms.append((name, ident, len(ms)))
+            # ---- a Yes box and its No box (widget names <stem>yes / <stem>no) are driven by the same line
+            stems = {}
+            for pf in pfs:
+                if isinstance(pf, PF.ButtonPDFField):
+                    mm_ = re.match(r'^(.*?)(yes|no)$', pf.pdf_field_name, re.I)
+                    if mm_:
+                        stems.setdefault(mm_.group(1).lower(), {})[mm_.group(2).lower()] = pf
+            for stem, pair in stems.items():
+                if 'yes' in pair and 'no' in pair:
+                    ck.count((y, name, stem, 'yes/no pair'), nontrivial=True)
+                    if pair['yes'].field_name != pair['no'].field_name:
+                        ck.violation('C18:%d:%s:yes-no-pair:%s' % (y, name, stem),
+                                     'ty%d %s: the Yes box %s is filled from line %s but its No box %s from line %s' % (
+                                         y, name, pair['yes'].pdf_field_name, pair['yes'].field_name, pair['no'].pdf_field_name, pair['no'].field_name),
+                                     {'kind': 'failing-input', 'year': y, 'form': name, 'yes_box': pair['yes'].pdf_field_name, 'yes_line': pair['yes'].field_name,
+                                      'no_box': pair['no'].pdf_field_name, 'no_line': pair['no'].field_name,
+                                      'how': 'a return where the two lines differ ticks both boxes or neither'}, found=True)
             # ---- exclusivity, on the real value functions
             groups = {}
             for pf in pfs:
